@@ -258,6 +258,17 @@ fn ctor_oracle(c: &Ctor) -> Verdict {
         ensure!(count(e.duration) == f64_trunc_i128(x * unit_ns as f64), "constructor {} of {:e}: count {}, want trunc(fl(x*unit)) = {}", c.k, x, count(e.duration), f64_trunc_i128(x * unit_ns as f64));
     }
     let tol = 4.0 * ulp(x.abs().max(cst)) + ns_in_unit + extra;
+    // the textual route of the same four views ("MJD x TAI", "JD x UTC", ...) must be as precise
+    if c.k <= 3 {
+        let txt = format!("{} {} {}", if c.k < 2 { "MJD" } else { "JD" }, x, if c.k % 2 == 0 { "TAI" } else { "UTC" });
+        match lib!(<Epoch as std::str::FromStr>::from_str(&txt)) {
+            Ok(e) => {
+                let b2 = match c.k { 0 => lib!(e.to_mjd_tai_days()), 1 => lib!(e.to_mjd_utc_days()), 2 => lib!(e.to_jde_tai_days()), _ => lib!(e.to_jde_utc_days()) };
+                ensure!((b2 - x).abs() <= tol, "text route {:?}: read back {:e} (difference {:e} > {:e})", txt, b2, (b2 - x).abs(), tol);
+            }
+            Err(err) => return Verdict::Fail(format!("{:?} does not parse: {:?}", txt, err)),
+        }
+    }
     ensure!((back - x).abs() <= tol, "view {}: built from {:e}, read back {:e} (difference {:e} > {:e})", c.k, x, back, (back - x).abs(), tol);
     Verdict::Pass("constructor-round-trip", true)
 }
